@@ -34,9 +34,15 @@ func (c *Ctx) funcLabel(fr *Frame) string {
 }
 
 func (c *Ctx) oblige(st *State, fr *Frame, instr ssa.Instruction, kind, desc, goal string, clause *Clause, tags []string) {
+	trivial := false
 	if goal == "true" {
-		// still count trivially true obligations? no: skip
-		return
+		// trivially true obligations are skipped, except frame obligations: "this call/store is
+		// inside the frame" is kept (discharged by construction) so that a frame proof is never an
+		// empty set of obligations
+		if kind != "frame" {
+			return
+		}
+		trivial = true
 	}
 	o := &Obligation{Func: c.fnKey(), Kind: kind + c.funcLabel(fr), Desc: desc, Goal: goal, Lines: st.lines.collect(), Clause: clause, Tags: tags}
 	if instr != nil {
@@ -45,6 +51,10 @@ func (c *Ctx) oblige(st *State, fr *Frame, instr ssa.Instruction, kind, desc, go
 		c.instrOrd[instr] = c.seqOf(instr)
 	}
 	o.Path = strings.Join(st.pathDesc, ",")
+	if trivial {
+		o.Trivial = true
+		o.Lines = nil
+	}
 	c.obls = append(c.obls, o)
 }
 
@@ -1011,8 +1021,43 @@ func (c *Ctx) execMapUpdate(st *State, fr *Frame, x *ssa.MapUpdate) {
 	c.setMem(st, "ML", "(store "+c.mem(st, "ML")+" "+m.S+" (ite "+wasIn+" (select "+c.mem(st, "ML")+" "+m.S+") (+ (select "+c.mem(st, "ML")+" "+m.S+") 1)))")
 }
 
+// execRange: range over a map or a string, abstracted: each Next yields either "done" or an
+// arbitrary element of the collection (any order, repetitions allowed) — an over-approximation of
+// every real iteration order, sufficient for frames and safety. Loops over it still need their cut
+// point like any other loop.
 func (c *Ctx) execRange(st *State, fr *Frame, in ssa.Instruction) {
-	c.abort("range over map/string not supported (%s)", in)
+	switch x := in.(type) {
+	case *ssa.Range:
+		v := c.valueOf(st, fr, x.X)
+		c.bind(st, fr, x, T{S: v.S, So: "RangeIter", Ty: x.X.Type()})
+	case *ssa.Next:
+		it := c.valueOf(st, fr, x.Iter)
+		ok := c.declare(st, "rok", "Bool")
+		tup := []T{{S: ok, So: "Bool", Ty: types.Typ[types.Bool]}}
+		tt := x.Type().(*types.Tuple)
+		if x.IsString {
+			i := c.declare(st, "ri", "Int")
+			r := c.declare(st, "rr", "Int")
+			st.assume("(=> " + ok + " (and (<= 0 " + i + ") (< " + i + " (slen_ " + it.S + ")) (<= 0 " + r + ") (<= " + r + " 1114111)))")
+			tup = append(tup, T{S: i, So: "Int", Ty: types.Typ[types.Int]}, T{S: r, So: "Int", Ty: types.Typ[types.Rune]})
+		} else {
+			mt, isMap := it.Ty.Underlying().(*types.Map)
+			if !isMap {
+				c.abort("range over %s not supported", it.Ty)
+			}
+			kt, vt := mt.Key(), mt.Elem()
+			ks, vs := c.reg.SortOf(kt), c.reg.SortOf(vt)
+			k := c.declare(st, "rk", ks)
+			st.assume(c.wf(k, kt, st.heapTop))
+			st.assume("(=> " + ok + " (and (not (= " + it.S + " nil)) " + c.mapDom(st, it.S, mt, k) + "))")
+			v := c.define(st, "rv", vs, c.mapVal(st, it.S, mt, k))
+			st.assume(c.wf(v, vt, st.heapTop))
+			kT, vT := T{S: k, So: ks, Ty: kt}, T{S: v, So: vs, Ty: vt}
+			_ = tt
+			tup = append(tup, kT, vT)
+		}
+		c.bind(st, fr, x, T{So: "Tuple", Tup: tup})
+	}
 }
 
 // ---------- panic / return ----------
